@@ -15,6 +15,7 @@ import Hts.Lemmas.IndexIOCsi
 import Hts.Lemmas.IndexStats
 import Hts.Lemmas.IndexRepr
 import Hts.Lemmas.IndexIORead
+import Hts.Lemmas.IndexIOTabixRead
 import Hts.Props.C04
 namespace Hts.Props.C15
 open Hts.Model Hts.Model.Index Hts.Model.IndexIO
@@ -156,6 +157,12 @@ theorem tabix_rewrite_identical (t : Tabix.TIndex) (h : TWF t) :
     ∃ t', readTabix (writeTabix t) = .ok (some t') ∧ writeTabix t' = writeTabix t ∧
       t'.hdr = t.hdr ∧ t'.names = t.names ∧ t'.idx = norm t.idx :=
   ⟨normTabix t, readTabix_writeTabix t h, writeTabix_norm t, rfl, rfl, rfl⟩
+
+/-- "or previously read" (tabix): whatever byte string `tabix.ReadFrom` accepts, the index it returns is
+well-formed, reads back as its canonical form and re-writes to the same bytes -/
+theorem tabix_previously_read (bs : Bytes) (t : Tabix.TIndex) (h : readTabix bs = .ok (some t)) :
+    TWF t ∧ readTabix (writeTabix t) = .ok (some (normTabix t)) ∧ writeTabix (normTabix t) = writeTabix t :=
+  ⟨readTabix_wf h, readTabix_writeTabix t (readTabix_wf h), writeTabix_norm t⟩
 
 /-- queries by name are answered identically when the re-built name map agrees with the one `Add`
 maintained (it does for distinct names in first-appearance order; checked by correspondence) -/
